@@ -357,7 +357,7 @@ impl Scenario for Discover {
             out.nontrivial = has_ignored || has_exclude_hit;
             // 1. discovery model at the neutral location
             let (loc0, files0, snap0) = &results[0];
-            let walk_files: BTreeSet<String> = files0.iter().filter(|f| !f.starts_with(".venv/") && !f.starts_with("plugsrc/")).cloned().collect();
+            let walk_files: BTreeSet<String> = files0.iter().filter(|f| !f.starts_with(".venv/") && (!f.starts_with("plugsrc/") || model.contains(*f))).cloned().collect();
             for m in model.difference(&walk_files) {
                 out.violate("discover-file-missing", format!("{} matches the patterns, is not under an ignored directory and is not excluded ({:?}) but was not indexed (root under {:?})", m, inp.excludes, loc0));
             }
@@ -401,8 +401,21 @@ impl Scenario for Discover {
                 }
             }
             let still: BTreeSet<String> = model_discovered(&degraded, &inp.excludes);
+            // plugin / venv modules that are pulled in by a faulted file (a plugin's star-imported helper) go with it
+            let mut via_touched: BTreeSet<String> = BTreeSet::new();
+            let mut work: Vec<String> = touched.iter().cloned().collect();
+            while let Some(t) = work.pop() {
+                for it in inp.spec.file(&t).map(|f| f.items.clone()).unwrap_or_default() {
+                    if let Item::Star { target: Some(x), .. } = it {
+                        if via_touched.insert(x.clone()) {
+                            work.push(x);
+                        }
+                    }
+                }
+            }
+            let venv_kept = |f: &str| (f.starts_with(".venv/") || f.starts_with("plugsrc/") || f.contains(".venv/") || f.contains("plugsrc/")) && !via_touched.iter().any(|v| f.contains(v.as_str()));
             for f in files0.difference(files1) {
-                if !touched.contains(f) && (still.contains(f) || f.starts_with(".venv/") || f.starts_with("plugsrc/")) {
+                if !touched.contains(f) && (still.contains(f) || venv_kept(f)) {
                     out.violate("fault-removes-other-file", format!("{} is indexed without faults but missing when {:?}/{:?} are faulted", f, inp.faults, inp.adversary));
                 }
             }
@@ -412,7 +425,7 @@ impl Scenario for Discover {
                 }
             }
             let strip = |s: &MapSnap| -> Vec<String> {
-                let keep = |l: &String| !touched.iter().any(|t| l.contains(t.as_str())) && !l.contains("no_such_target.py") && (still.iter().any(|f| l.contains(f.as_str())) || l.contains(".venv/") || l.contains("plugsrc/"));
+                let keep = |l: &String| !touched.iter().any(|t| l.contains(t.as_str())) && !l.contains("no_such_target.py") && !via_touched.iter().any(|v| l.contains(v.as_str())) && (still.iter().any(|f| l.contains(f.as_str())) || venv_kept(l));
                 s.definitions.iter().chain(s.usages.iter()).chain(s.imports.iter()).filter(|l| keep(l)).cloned().collect()
             };
             if strip(snap0) != strip(snap1) {
